@@ -838,8 +838,18 @@ def reindex_(
         # all groups were NaN
         shape = array.shape[:-1] + (len(to),)
         if array_type in (ReindexArrayType.AUTO, ReindexArrayType.NUMPY):
-            # full_like (rather than full) so that a chunked input yields a chunked result
-            reindexed = np.full_like(array, fill_value, shape=shape)
+            # treat the fill value exactly like the general case below
+            # *_like (rather than np.full) so that a chunked input yields a chunked result
+            if fill_value is None:
+                if len(to) > 0:
+                    raise ValueError("Filling is required. fill_value cannot be None.")
+                reindexed = np.empty_like(array, shape=shape)
+            else:
+                if xrdtypes.NA == fill_value or isnull(fill_value):
+                    new_dtype, fill_value = xrdtypes.maybe_promote(array.dtype)
+                else:
+                    new_dtype = array.dtype
+                reindexed = np.full_like(array, fill_value, shape=shape, dtype=new_dtype)
         else:
             raise NotImplementedError
         return reindexed
